@@ -2,15 +2,18 @@ package main
 
 import (
 	"bytes"
+	"errors"
 	"fmt"
 	"strings"
 
+	"github.com/Eyevinn/mp4ff/avc"
+	"github.com/Eyevinn/mp4ff/hevc"
 	"github.com/Eyevinn/mp4ff/sei"
 )
 
 func init() {
 	props["C17"] = &propDef{
-		rule: "cases = SEI message lists (0..6 messages, types around 255/510 and large, sizes {0,1,2,254,255,256,509,510,511,random}, payload bytes biased to 00/01/02/03/ff incl. payloads ending in 00) written and extracted; typed messages: time code (all flag combinations x time-offset lengths 0..31 x 0..3 clocks), AVC picture timing (pict_struct 0..8, with/without HRD delays, signed time offsets), MDCV, CLL, and pass-through messages (types 4, 5, CEA-608, HEVC pic timing); non-trivial = distinct list with >= 2 messages or a type/size >= 255 or an escape in the output; distinct typed message value",
+		rule: "cases = SEI message lists (0..6 messages, types around 255/510 and large, sizes {0,1,2,254,255,256,509,510,511,random}, payload bytes biased to 00/01/02/03/ff incl. payloads ending in 00) written and extracted; typed messages: time code (all flag combinations x time-offset lengths 0..31 x 0..3 clocks), AVC picture timing (pict_struct 0..8, with/without HRD delays, signed time offsets), MDCV, CLL, and pass-through messages (types 4, 5, CEA-608, HEVC pic timing); complete SEI NAL units (AVC / HEVC header + written list of 1..6 messages mixing types without a dedicated decoder with the codec's typed and pass-through ones) parsed through avc.ParseSEINalu / hevc.ParseSEINalu without and with an SPS (VUI only, NAL/VCL HRD), 1..3 NAL units parsed before any returned list is inspected; non-trivial = distinct list with >= 2 messages or a type/size >= 255 or an escape in the output; distinct typed message value",
 		gen:  genC17,
 		exec: execC17,
 	}
@@ -119,6 +122,14 @@ func execC17Inner(op string, a []string) string {
 			return "err"
 		}
 		return out
+	case "sei.nalu":
+		var nalus [][]byte
+		for _, x := range a[2:] {
+			d, _ := unhx(x)
+			nalus = append(nalus, d)
+		}
+		_, _, late := c17ParseNalus(a[0], a[1], nalus)
+		return strings.Join(late(), " | ")
 	case "tc.pl":
 		tc := sei.TimeCodeSEI{}
 		for _, x := range a {
@@ -367,6 +378,7 @@ func genC17(c *Ctx) {
 			c.Count("extract-truncated")
 		}
 	}
+	genC17Nalu(c) // complete SEI NAL units through avc.ParseSEINalu / hevc.ParseSEINalu, results held across calls
 	// ---- time code 136: all flag shapes x tol 0..31 x 0..3 clocks
 	for tol := 0; tol <= 31; tol++ {
 		for rep := 0; rep < c.N(60, 800); rep++ {
@@ -543,6 +555,364 @@ func genC17(c *Ctx) {
 		c.Count(fmt.Sprintf("passthrough.kind%d", kind))
 		if p != "" || !bytes.Equal(got, pl) || int(size) != len(pl) {
 			c.Fail("C17-passthrough", "pass-through SEI message does not return its payload unchanged", req, p+hx(got), hx(pl))
+		}
+	}
+}
+
+// ---- complete SEI NAL units. The round trip of the property is observed where an application observes it: a NAL unit
+// (header + WriteSEIMessages output) handed to avc.ParseSEINalu / hevc.ParseSEINalu (anchors avc/sei.go, hevc/sei.go),
+// with and without an SPS. Lists mix messages without a dedicated decoder (any payload) with the typed and pass-through
+// ones of the codec (payloads valid for their decoder: serialised from message values / long enough user data).
+// The returned list must be the written list of (type, payload), in order; Size() of a typed / pass-through message is
+// its payload length. Several NAL units are parsed one after the other and all results inspected afterwards: a returned
+// list is a value, later calls must not change it.
+//
+//   sei.nalu <avc|hevc> <sps> <NAL hex>+   sps: "-" none | AVC "vui", "nal:a,b,tol", "vcl:a,b,tol" (HRD lengths-1,
+//                                           time offset length) | HEVC "vui:ffi", "hrd:ffi,au,dpb"
+//   answer: per NAL unit "type:payload ..." (as sei.extract), joined by " | ", rendered after the last call
+
+func c17AvcSPS(desc string) *avc.SPS {
+	switch {
+	case desc == "-":
+		return nil
+	case desc == "vui":
+		return &avc.SPS{VUI: &avc.VUIParameters{}}
+	}
+	p := strings.SplitN(desc, ":", 2)
+	v := ints(p[1])
+	hrd := &avc.HrdParameters{CpbRemovalDelayLengthMinus1: uint(v[0]), DpbOutputDelayLengthMinus1: uint(v[1]), TimeOffsetLength: uint(v[2])}
+	if p[0] == "vcl" {
+		return &avc.SPS{VUI: &avc.VUIParameters{VclHrdParametersPresentFlag: true, VclHrdParameters: hrd}}
+	}
+	return &avc.SPS{VUI: &avc.VUIParameters{NalHrdParametersPresentFlag: true, NalHrdParameters: hrd}}
+}
+
+func c17HevcSPS(desc string) *hevc.SPS {
+	if desc == "-" {
+		return nil
+	}
+	p := strings.SplitN(desc, ":", 2)
+	v := ints(p[1])
+	vui := &hevc.VUIParameters{FrameFieldInfoPresentFlag: v[0] != 0}
+	if p[0] == "hrd" {
+		vui.HrdParameters = &hevc.HrdParameters{NalHrdParametersPresentFlag: true, AuCpbRemovalDelayLengthMinus1: uint8(v[1]), DpbOutputDelayLengthMinus1: uint8(v[2])}
+	}
+	return &hevc.SPS{VUI: vui}
+}
+
+func c17RenderMsgs(msgs []sei.SEIMessage, err error) string {
+	if errors.Is(err, avc.ErrNotSEINalu) || errors.Is(err, hevc.ErrNotSEINalu) {
+		return "not-sei"
+	}
+	s := []string{}
+	for _, m := range msgs {
+		if m == nil {
+			s = append(s, "nil")
+			continue
+		}
+		s = append(s, fmt.Sprintf("%d:%s", m.Type(), hx(m.Payload())))
+	}
+	out := "none"
+	if len(s) > 0 {
+		out = strings.Join(s, " ")
+	}
+	if errors.Is(err, sei.ErrRbspTrailingBitsMissing) {
+		return out + " trailing-missing"
+	}
+	if err != nil {
+		return "err"
+	}
+	return out
+}
+
+// c17ParseNalus parses the NAL units in order and holds on to every result: `immediate` is each result rendered right
+// after its own call, `late()` renders all held results again.
+func c17ParseNalus(codec, spsDesc string, nalus [][]byte) (held [][]sei.SEIMessage, immediate []string, late func() []string) {
+	errs := make([]error, len(nalus))
+	held = make([][]sei.SEIMessage, len(nalus))
+	var asps *avc.SPS
+	var hsps *hevc.SPS
+	if codec == "avc" {
+		asps = c17AvcSPS(spsDesc)
+	} else {
+		hsps = c17HevcSPS(spsDesc)
+	}
+	for i, n := range nalus {
+		if codec == "avc" {
+			held[i], errs[i] = avc.ParseSEINalu(n, asps)
+		} else {
+			held[i], errs[i] = hevc.ParseSEINalu(n, hsps)
+		}
+		immediate = append(immediate, c17RenderMsgs(held[i], errs[i]))
+	}
+	late = func() []string {
+		out := make([]string, len(nalus))
+		for i := range nalus {
+			out[i] = c17RenderMsgs(held[i], errs[i])
+		}
+		return out
+	}
+	return
+}
+
+type c17Msg struct {
+	typ     uint
+	payload []byte
+	obj     sei.SEIMessage // what is handed to WriteSEIMessages (the typed message value where there is one)
+	typed   bool           // has a dedicated decoder in this codec / SPS setting
+}
+
+func c17CEA608(c *Ctx, n int) []byte {
+	pl := make([]byte, n)
+	c.R.Read(pl)
+	copy(pl, []byte{0xb5, 0x00, 0x31, 0x47, 0x41, 0x39, 0x34, 0x03})
+	cc := (n - 10) / 3
+	if cc > 31 {
+		cc = 31
+	}
+	pl[8] = 0xc0 | byte(cc)
+	pl[9] = 0xff
+	return pl
+}
+
+// a message with a dedicated decoder for (codec, sps), with a payload that decoder accepts
+func c17TypedMsg(c *Ctx, codec, spsDesc string) c17Msg {
+	rnd := func(n int) []byte { b := make([]byte, n); c.R.Read(b); return b }
+	kinds := []int{4, 5, 608}
+	if codec == "avc" {
+		kinds = append(kinds, 1, 1)
+	} else {
+		kinds = append(kinds, 136, 136, 137, 144)
+		if spsDesc != "-" {
+			kinds = append(kinds, 1)
+		}
+	}
+	switch k := kinds[c.R.Intn(len(kinds))]; k {
+	case 4:
+		pl := rnd(8 + c.R.Intn(24))
+		pl[0] &= 0x7f // not the CEA-608 country code
+		return c17Msg{4, pl, sei.NewSEIData(4, pl), true}
+	case 608:
+		pl := c17CEA608(c, 24+c.R.Intn(40))
+		return c17Msg{4, pl, sei.NewSEIData(4, pl), true}
+	case 5:
+		pl := rnd(16 + c.R.Intn(24))
+		return c17Msg{5, pl, sei.NewSEIData(5, pl), true}
+	case 136:
+		tc := &sei.TimeCodeSEI{}
+		tol := c.R.Intn(32)
+		for i, nc := 0, c.R.Intn(4); i < nc; i++ {
+			tc.Clocks = append(tc.Clocks, clockFrom(genClock136(c, tol)))
+		}
+		return c17Msg{136, tc.Payload(), tc, true}
+	case 137:
+		m := &sei.MasteringDisplayColourVolumeSEI{WhitePointX: uint16(c.R.Intn(65536)), WhitePointY: uint16(c.R.Intn(65536)),
+			MaxDisplayMasteringLuminance: c.R.Uint32(), MinDisplayMasteringLuminance: c.R.Uint32()}
+		for i := 0; i < 3; i++ {
+			m.DisplayPrimariesX[i], m.DisplayPrimariesY[i] = uint16(c.R.Intn(65536)), uint16(c.R.Intn(4))
+		}
+		return c17Msg{137, m.Payload(), m, true}
+	case 144:
+		m := &sei.ContentLightLevelInformationSEI{MaxContentLightLevel: uint16(c.R.Intn(65536)), MaxPicAverageLightLevel: uint16(c.R.Intn(3))}
+		return c17Msg{144, m.Payload(), m, true}
+	default: // 1
+		if codec == "hevc" { // pass-through; long enough for every field the SPS settings make the decoder read
+			pl := rnd(16 + c.R.Intn(24))
+			return c17Msg{1, pl, sei.NewSEIData(1, pl), true}
+		}
+		p := &sei.PicTimingAvcSEI{PictStruct: uint8(c.R.Intn(9))}
+		tol := 0
+		if i := strings.Index(spsDesc, ":"); i > 0 {
+			v := ints(spsDesc[i+1:])
+			a, b := v[0], v[1]
+			tol = v[2]
+			p.CbpDbpDelay = &sei.CbpDbpDelay{CpbRemovalDelay: uint(c.R.Int63n(1 << uint(a+1))), DpbOutputDelay: uint(c.R.Int63n(1 << uint(b+1))),
+				CpbRemovalDelayLengthMinus1: byte(a), DpbOutputDelayLengthMinus1: byte(b)}
+		}
+		p.TimeOffsetLength = uint8(tol)
+		nc := 1
+		if p.PictStruct > 2 {
+			nc = 2
+		}
+		if p.PictStruct > 4 {
+			nc = 3
+		}
+		for i := 0; i < nc; i++ {
+			p.Clocks = append(p.Clocks, clockAvcFrom(genClockAvc(c, tol)))
+		}
+		return c17Msg{1, p.Payload(), p, true}
+	}
+}
+
+func c17IsTypedType(codec, spsDesc string, t int) bool {
+	switch t {
+	case 4, 5:
+		return true
+	case 1:
+		return codec == "avc" || spsDesc != "-"
+	case 136, 137, 144:
+		return codec == "hevc"
+	}
+	return false
+}
+
+func genC17Nalu(c *Ctx) {
+	c.Note("SEI NAL units: header + WriteSEIMessages(1..6 messages, general types mixed with the codec's typed / pass-through messages) through avc.ParseSEINalu and hevc.ParseSEINalu, without SPS and with SPS (VUI only, NAL/VCL HRD); 1..3 NAL units parsed before any result is inspected")
+	types := []int{0, 1, 2, 3, 6, 7, 45, 128, 129, 136, 137, 144, 147, 254, 255, 256, 300, 510, 511, 1000, 70000}
+	sizes := []int{0, 1, 2, 3, 16, 24, 254, 255, 256, 300}
+	for it := 0; it < c.N(2500, 40000); it++ {
+		codec := []string{"avc", "hevc"}[it%2]
+		spsDesc := "-"
+		hdrs := [][]byte{{0x06}, {0x06}, {0x26}, {0x66}}
+		if codec == "avc" {
+			switch c.R.Intn(5) {
+			case 0:
+				spsDesc = "vui"
+			case 1, 2:
+				tol := c.R.Intn(32)
+				if c.R.Intn(3) == 0 {
+					tol = 0
+				}
+				spsDesc = fmt.Sprintf("%s:%d,%d,%d", []string{"nal", "vcl"}[c.R.Intn(2)], c.R.Intn(24), c.R.Intn(24), tol)
+			}
+		} else {
+			hdrs = [][]byte{{0x4e, 0x01}, {0x4e, 0x01}, {0x50, 0x01}, {0x4e, 0x03}}
+			switch c.R.Intn(5) {
+			case 0:
+				spsDesc = fmt.Sprintf("vui:%d", c.R.Intn(2))
+			case 1, 2:
+				spsDesc = fmt.Sprintf("hrd:%d,%d,%d", c.R.Intn(2), c.R.Intn(32), c.R.Intn(32))
+			}
+		}
+		nNalus := 1 + c.R.Intn(3)
+		var nalus [][]byte
+		var lists [][]c17Msg
+		var want []string
+		writeFailed := false
+		for k := 0; k < nNalus; k++ {
+			nm := 1 + c.R.Intn(6)
+			if c.R.Intn(8) == 0 {
+				nm = 1
+			}
+			var msgs []c17Msg
+			for i := 0; i < nm; i++ {
+				if c.R.Intn(5) < 2 {
+					msgs = append(msgs, c17TypedMsg(c, codec, spsDesc))
+					continue
+				}
+				t := types[c.R.Intn(len(types))]
+				if c.R.Intn(5) == 0 {
+					t = c.R.Intn(600)
+				}
+				for c17IsTypedType(codec, spsDesc, t) {
+					t = types[c.R.Intn(len(types))]
+				}
+				sz := sizes[c.R.Intn(len(sizes))]
+				if c.R.Intn(2) == 0 {
+					sz = c.R.Intn(24)
+				}
+				pl := make([]byte, sz)
+				for j := range pl {
+					pl[j] = []byte{0, 0, 0, 1, 2, 3, 3, 0xff, 0x80, byte(c.R.Intn(256))}[c.R.Intn(10)]
+				}
+				if sz > 0 && c.R.Intn(4) == 0 {
+					pl[sz-1] = 0
+				}
+				msgs = append(msgs, c17Msg{uint(t), pl, sei.NewSEIData(uint(t), pl), false})
+			}
+			var objs []sei.SEIMessage
+			var w []string
+			for _, m := range msgs {
+				objs = append(objs, m.obj)
+				w = append(w, fmt.Sprintf("%d:%s", m.typ, hx(m.payload)))
+			}
+			var buf bytes.Buffer
+			if p := safe(func() {
+				if err := sei.WriteSEIMessages(&buf, objs); err != nil {
+					writeFailed = true
+				}
+			}); p != "" {
+				writeFailed = true
+			}
+			hdr := hdrs[c.R.Intn(len(hdrs))]
+			wreq := "sei.write " + strings.Join(w, " ")
+			if k == 0 {
+				c.Case(wreq, hx(buf.Bytes())) // the typed message values are written as themselves: same bytes as the model writes for (type, payload)
+			}
+			if writeFailed {
+				c.Fail("C17-nalu-write", "WriteSEIMessages fails on a list of typed message values and raw messages", wreq, "error", "bytes")
+				break
+			}
+			nalus = append(nalus, append(append([]byte{}, hdr...), buf.Bytes()...))
+			lists = append(lists, msgs)
+			want = append(want, strings.Join(w, " "))
+		}
+		if writeFailed {
+			continue
+		}
+		if it%40 == 7 { // not an SEI NAL unit (other NAL type, or shorter than a header): both refuse
+			body := nalus[0][len(hdrs[0]):]
+			bad := [][]byte{append([]byte{0x05}, body...), append([]byte{0x67}, body...), {}}
+			if codec == "hevc" {
+				bad = [][]byte{append([]byte{0x40, 0x01}, body...), append([]byte{0x26, 0x01}, body...), {0x4e}, {}}
+			}
+			nalus, lists, want = append(nalus, bad[c.R.Intn(len(bad))]), append(lists, nil), append(want, "not-sei")
+		}
+		hxs := make([]string, len(nalus))
+		for i, n := range nalus {
+			hxs[i] = hx(n)
+		}
+		req := fmt.Sprintf("sei.nalu %s %s %s", codec, spsDesc, strings.Join(hxs, " "))
+		var held [][]sei.SEIMessage
+		var immediate, late []string
+		var sizeBad string
+		p := safe(func() {
+			var lf func() []string
+			held, immediate, lf = c17ParseNalus(codec, spsDesc, nalus)
+			late = lf()
+			for i, l := range lists {
+				if l == nil || len(held[i]) != len(l) {
+					continue
+				}
+				for j, m := range l {
+					if m.typed && held[i][j] != nil && int(held[i][j].Size()) != len(m.payload) {
+						sizeBad = fmt.Sprintf("NAL unit %d message %d (type %d): Size()=%d, payload length %d", i+1, j+1, m.typ, held[i][j].Size(), len(m.payload))
+					}
+				}
+			}
+		})
+		if p != "" {
+			c.Case(req, p)
+			c.Fail("C17-"+codec+"-nalu-panic", "ParseSEINalu panics on a written SEI NAL unit", req, p, strings.Join(want, " | "))
+			continue
+		}
+		c.Case(req, strings.Join(late, " | "))
+		c.Eval(req)
+		c.Count(fmt.Sprintf("nalu.%s.sps=%s.units=%d", codec, strings.SplitN(spsDesc, ":", 2)[0], len(nalus)))
+		if it < 2 {
+			c.Sample(req + " -> " + strings.Join(late, " | "))
+		}
+		bad := false
+		for i := range nalus {
+			if immediate[i] != want[i] {
+				c.Fail("C17-"+codec+"-nalu-roundtrip", fmt.Sprintf("%s.ParseSEINalu(header + WriteSEIMessages(msgs)) != msgs (NAL unit %d of %d, inspected right after its call)", codec, i+1, len(nalus)),
+					req, immediate[i], want[i])
+				bad = true
+				break
+			}
+		}
+		if bad {
+			continue
+		}
+		for i := range nalus {
+			if late[i] != want[i] {
+				c.Fail("C17-"+codec+"-nalu-history", fmt.Sprintf("the message list returned by %s.ParseSEINalu for NAL unit %d of %d changed after the later NAL units were parsed", codec, i+1, len(nalus)),
+					req, late[i], want[i])
+				break
+			}
+		}
+		if sizeBad != "" {
+			c.Fail("C17-"+codec+"-nalu-size", "Size() of a typed / pass-through message returned by ParseSEINalu is not its payload length", req, sizeBad, "")
 		}
 	}
 }
